@@ -196,7 +196,8 @@ func (w *World) relevant(v *view, it *Item) bool {
 		}
 		return false
 	case kProposal:
-		return it.H == rs.Height && it.R == rs.Round && rs.Proposal == nil && rs.Step < pbft.RoundStepCommit && v.nd.inc.delivered[it.ID] < 3
+		// (the gossip routine sends the proposal to a peer that has none, whatever step that peer is in)
+		return it.H == rs.Height && it.R == rs.Round && rs.Proposal == nil && v.nd.inc.delivered[it.ID] < 3
 	case kPart:
 		if it.H != rs.Height || rs.ProposalBlockParts == nil || !rs.ProposalBlockParts.HasHeader(it.PSH) {
 			return false
